@@ -113,6 +113,8 @@ class FullQSDPass(BasePass):
             if self.perform_scan:
                 passes.append(self.scan)
             passes.append(self.mgd)
+        if len(passes) == 0:
+            return
         await Workflow(passes).run(circuit, data)
 
 
